@@ -226,7 +226,21 @@ class Bed:
             if self.dead[(L, side)]:
                 return []
             r.mark = len(self.incoming[self.dev_index(L, OTHER[side])])
-            r.task = loop.create_task(self._co_open(kind, L, side, variant, served=(k != 'refused')))
+            trigger = op[5].get('on_close_of') if (k == 'open' and len(op) > 5 and isinstance(op[5], dict)) else None
+            if trigger is not None and trigger in self.recs and self.recs[trigger].halves.get(side) is not None:
+                # the application opens the new channel from the 'close' handler of an older one (at the very moment its
+                # identifier becomes free, while frames of the old channel may still be in flight)
+                old = self.recs[trigger].halves[side].obj
+
+                async def open_when_closed():
+                    closed = loop.create_future()
+                    old.once('close', lambda: closed.done() or closed.set_result(None))
+                    await closed
+                    return await self._co_open(kind, L, side, variant)
+
+                r.task = loop.create_task(open_when_closed())
+            else:
+                r.task = loop.create_task(self._co_open(kind, L, side, variant, served=(k != 'refused')))
             if k == 'cancel':
                 self.cancel_req = (r, self.allmsgs + op[5])
         elif k in ('close', 'drain'):
